@@ -167,7 +167,7 @@ def gen_boundary(tier, rng):
 
 def gen_random(tier, rng):
     out = []
-    cnt = 260 if tier == "quick" else 6000
+    cnt = 260 if tier == "quick" else 20000
     for k in range(cnt):
         r = rng.random()
         n = rng.randrange(0, 40) if r < 0.3 else rng.randrange(40, 400) if r < 0.75 else rng.randrange(400, 2001)
@@ -179,7 +179,7 @@ def gen_random(tier, rng):
         cm = rng.choice(ALLCMP) if rng.random() < 0.55 else "asc"
         out.append(Case("sort", n, w, keys, cm, seed=rng.randrange(1 << 40), ctx=rng.randrange(1 << 20), lay=rng.choice("RL"), origin="random"))
     if tier != "quick":
-        for k in range(12):
+        for k in range(30):
             n = rng.randrange(20000, 120000)
             out.append(Case("sort", n, 4, None, rng.choice(("asc", "desc", "mix", "rnd")), seed=rng.randrange(1 << 40), full=0, origin="random-large",
                             keyspec="rnd:%d:%d:%d" % (n, rng.randrange(1 << 30), rng.choice([3, 1000, 1 << 30]))))
